@@ -163,6 +163,52 @@ DispatchImpl(L, Impl) ==
     LET nm == GetAttr(L, Len(L)) IN
     IF nm # "" /\ nm \in Impl THEN nm ELSE FallbackImpl(L, Impl)
 
+\* ---------------------------------------------------------------- what the handler does (round 5)
+\* What a handler DOES is an input of dispatch: it returns a value, or it raises an exception of
+\* some class - among them the classes a dispatcher may use itself while it looks the handler up
+\* (AttributeError: attribute lookup; KeyError / TypeError: a cache; ValueError: the rejection of
+\* foreign objects; UnsupportedExpressionError / NotImplementedError: the hook and the stubs of
+\* the base class), user classes derived from those, and an unrelated user class.
+Excs == {"AttributeError", "UserAttributeError", "KeyError", "TypeError", "ValueError",
+         "NotImplementedError", "UnsupportedExpressionError", "UserError"}
+Outcomes == {"return"} \cup Excs
+\* Python's exception hierarchy, as far as a handler of the dispatcher could tell the classes apart
+ExcIsA(e, c) == e = c \/ (e = "UserAttributeError" /\ c = "AttributeError")
+                      \/ (e = "UnsupportedExpressionError" /\ c = "ValueError")
+\* an outcome assignment: handler `who` ("*" = every handler of the user, "unsupported" = the hook
+\* when the user overrides it) has outcome `exc`, every other handler returns
+HookName == "unsupported"
+OcAll == [who |-> "*", exc |-> "return"]
+OcOf(oc, h) == IF oc.who \in {"*", h} THEN oc.exc ELSE "return"
+
+\* M-layer, from the statement: applying the mapper "invokes the handler named by the node's class,
+\* else ... the nearest ancestor ..., else the hook": exactly ONE handler runs, once, and what it
+\* does - the value it returns or the exception it raises - is what the application does.
+Applied(target, oc) == [seq |-> << target >>, out |-> OcOf(oc, target)]
+
+\* A-layer: Mapper.__call__ as a run: lookup (getattr with a default), then the call OUTSIDE any
+\* exception handler; eafp = the design error "try: getattr(self, expr.mapper_method)(expr, ..)
+\* except AttributeError: fall through", where the handler's own exception is taken for a failed
+\* lookup and the fallback search runs as well.
+RunImpl(L, Impl, oc, eafp) ==
+    LET nm == GetAttr(L, Len(L))
+        fb == FallbackImpl(L, Impl)
+    IN IF nm # "" /\ nm \in Impl
+       THEN IF eafp /\ ExcIsA(OcOf(oc, nm), "AttributeError")
+            THEN [seq |-> << nm, fb >>, out |-> OcOf(oc, fb)]
+            ELSE [seq |-> << nm >>, out |-> OcOf(oc, nm)]
+       ELSE [seq |-> << fb >>, out |-> OcOf(oc, fb)]
+FallbackRunImpl(L, Impl, oc) == LET fb == FallbackImpl(L, Impl) IN [seq |-> << fb >>, out |-> OcOf(oc, fb)]
+\* foreign objects: an object that carries a handler name is looked up the same way, then map_foreign
+ForeignRunImpl(kind, reg, Impl, oc, eafp) ==
+    LET own == OwnHandlerOfForeign(kind)
+        fb == ForeignRoute(kind, reg)
+    IN IF own # "" /\ own \in Impl
+       THEN IF eafp /\ ExcIsA(OcOf(oc, own), "AttributeError")
+            THEN [seq |-> << own, fb >>, out |-> OcOf(oc, fb)]
+            ELSE [seq |-> << own >>, out |-> OcOf(oc, own)]
+       ELSE [seq |-> << fb >>, out |-> OcOf(oc, fb)]
+
 \* ---------------------------------------------------------------- runs
 \* the runs every case is put through: entry point x extra arguments x hook overridden
 AP0 == [a |-> << >>, k |-> << >>]
@@ -176,22 +222,31 @@ Runs == << [mode |-> "call", ap |-> AP0, hookret |-> FALSE], [mode |-> "call", a
 
 \* ---------------------------------------------------------------- judging one observation
 \* o: [first: name of the first handler that ran ("" none), a, k: the extra arguments it
-\*     received, res: token returned ("" none), exc: exception class ("" none)]
-\* user handlers return the token "ret:" \o name; the hook is either left alone (raises) or
-\* overridden to return "ret:hook" (hookret).
-JudgeObs(target, o, args, kw, userImpl, hookret) ==
+\*     received, n: how many handler invocations were logged, seq: their names in order,
+\*     res: token returned ("" none), exc: exception class ("" none), same: the exception that
+\*     came out is the very object the handler raised]
+\* user handlers do what the case's outcome assignment oc says: return the token "ret:" \o name or
+\* raise an exception of the named class; the hook is either left alone (raises) or overridden
+\* (hookret) and then does what oc says for it, returning "ret:hook".
+\* A handler of the user that is the target must be the ONLY handler that runs (clause
+\* "extra-handler") and its outcome must come out unchanged (clauses "result" / "outcome").
+OutcomeWhy(want, token, o) ==
+    IF want = "return" THEN (IF o.res = token /\ o.exc = "" THEN "OK" ELSE "result")
+    ELSE IF o.exc = want /\ o.res = "" /\ o.same THEN "OK" ELSE "outcome"
+JudgeObs(target, o, args, kw, userImpl, hookret, oc) ==
     IF target = "SKIP" THEN "SKIP"
     ELSE IF target = "error"
          THEN (IF o.first # "" THEN "foreign-handled" ELSE IF o.exc = "" THEN "foreign-accepted" ELSE "OK")
     ELSE IF target = "unsupported"
          THEN (IF o.first # "handle_unsupported_expression" THEN "handler"
                ELSE IF o.a # args \/ o.k # kw THEN "args"
-               ELSE IF hookret THEN (IF o.res = "ret:hook" /\ o.exc = "" THEN "OK" ELSE "result")
+               ELSE IF hookret THEN (IF o.n # 1 THEN "extra-handler"
+                                     ELSE OutcomeWhy(OcOf(oc, HookName), "ret:hook", o))
                ELSE IF o.exc \in {"UnsupportedExpressionError", "NotImplementedError"} THEN "OK"
                ELSE "silent")
     ELSE IF o.first # target THEN "handler"
     ELSE IF o.a # args \/ o.k # kw THEN "args"
     ELSE IF target \in userImpl
-         THEN (IF o.res = "ret:" \o target /\ o.exc = "" THEN "OK" ELSE "result")
+         THEN (IF o.n # 1 THEN "extra-handler" ELSE OutcomeWhy(OcOf(oc, target), "ret:" \o target, o))
     ELSE "OK"   \* a stub of the base class ran: what it does next is its own business
 =============================================================================
